@@ -79,7 +79,7 @@ class Check:
                 return f
         return None
 
-    def violation(self, signature, what, case=None, files=None, copy_from=None, max_per_sig=1):
+    def violation(self, signature, what, case=None, files=None, copy_from=None, max_per_sig=1, replay=None):
         """Record a violation.  signature is a narrow root-cause key.  Returns
         True if it is new (not a listed known finding)."""
         k = self.is_known(signature)
@@ -93,6 +93,8 @@ class Check:
         rp = self.new_replay_dir()
         c = dict(case or {})
         c.update({"property": self.pid, "signature": signature, "what": what})
+        if replay is not None:
+            c["replay"] = replay          # {"module": ..., "func": ..., "args": ...}: ./vf replay re-runs exactly this case
         for name, content in (files or {}).items():
             mode = "wb" if isinstance(content, bytes) else "w"
             with open(os.path.join(rp, name), mode) as f:
